@@ -50,7 +50,27 @@ def main():
     except vlib.InternalError as e:
         print('INTERNAL ERROR in check %s: %s' % (prop, e))
         sys.exit(2)
-    except Exception:
+    except Exception as e:
+        # an exception that escapes from the library under test, in a call the check takes to be safe (it returns on the
+        # unchanged tree), is a finding about the library, not an internal error of the check: report it with the call
+        tb = traceback.extract_tb(e.__traceback__)
+        repo = os.path.realpath(vlib.REPO)
+        inner = tb[-1] if tb else None
+        if inner is not None and os.path.realpath(inner.filename).startswith(repo + os.sep):
+            caller = next((f for f in reversed(tb) if not os.path.realpath(f.filename).startswith(repo + os.sep)), None)
+            where = '%s:%d' % (os.path.relpath(inner.filename, repo), inner.lineno)
+            ctx.fail('library call made by the check', [caller.line if caller else '?'], 'returns, as on the unchanged tree',
+                     '%s: %s (raised at %s)' % (type(e).__name__, e, where),
+                     note='unexpected exception from the library in a call that returns on the unchanged tree; the check stopped there',
+                     replay_py='# the check stopped at %s:%s\n# %s' % (os.path.basename(caller.filename) if caller else '?', caller.lineno if caller else '?', caller.line if caller else ''))
+            traceback.print_exc()
+            try:
+                rc = ctx.finish()
+            except Exception:
+                traceback.print_exc()
+                print('INTERNAL ERROR in check %s' % prop)
+                sys.exit(2)
+            sys.exit(rc)
         traceback.print_exc()
         print('INTERNAL ERROR in check %s' % prop)
         sys.exit(2)
